@@ -45,9 +45,10 @@
 //!
 //! Triage aids (not used by ./check): `C17_DEBUG=1 ./check C17 --replay f` prints cmap records, table
 //! sizes and per-character mappings of both subset levels; `C17_SCAN=<font file name>` lists failing
-//! single-glyph / single-character requests; `C17_LONG_HVAR=1|small|short` subsets a derived font whose
-//! HVAR has no index maps and (1) 32-bit deltas above the 16-bit range, (small) 32-bit words with small
-//! deltas, (short) ordinary 16-bit words — see PROPOSED_FIX_hvar_no_adv_map_and_long_words.diff.
+//! single-glyph / single-character requests.
+//! Derived fonts `+no-adv-map`, `+no-adv-map-long-words`, `+long-hvar` (HVAR without index maps; 16-bit
+//! words / LONG_WORDS with small deltas / LONG_WORDS with deltas outside i16) guard the fixes c527e46 and
+//! 32dcf4f (PROPOSED_FIX_hvar_no_adv_map_and_long_words.diff is what was proposed).
 
 use klippa::{subset_font, Plan, SubsetFlags, DEFAULT_LAYOUT_FEATURES};
 use rayon::prelude::*;
@@ -2295,14 +2296,38 @@ fn load_corpus(tier: Tier) -> Vec<FontInfo> {
             }
         }
     }
+    // No glyf corpus font reaches klippa's HVAR writer with an absent advance map and surviving deltas, and
+    // none has a LONG_WORDS ItemVariationData (32-bit deltas). Three derived fonts (see `with_long_hvar`).
+    if let Some(base) = jobs.iter().find(|j| j.0.ends_with("/hvar_with_truncated_adv_index_map.ttf")).map(|j| j.1.clone()) {
+        let base = &base;
+        for (suffix, variant) in [
+            ("+no-adv-map", HvarVariant::Short),
+            ("+no-adv-map-long-words", HvarVariant::LongSmall),
+            ("+long-hvar", HvarVariant::LongBig),
+        ] {
+            if let Some(b) = with_long_hvar(base, variant) {
+                jobs.push((format!("derived:hvar_with_truncated_adv_index_map.ttf{suffix}"), b, 0));
+            }
+        }
+    }
     jobs.into_par_iter()
         .filter_map(|(n, b, i)| load_font(n, b, i, tier))
         .collect()
 }
 
-/// Copy of a one-axis variable font whose HVAR is rebuilt with one long-word ItemVariationData (32-bit
-/// deltas, no index maps): glyph g gets the advance delta 40000 + g (even g) or 100 + g (odd g) at +1.
-fn with_long_hvar(bytes: &[u8]) -> Option<Vec<u8>> {
+/// Copy of a one-axis variable font whose HVAR is rebuilt by write-fonts with ONE ItemVariationData, one
+/// region (peak +1) and NO index maps (implicit glyph-id mapping — no glyf corpus font with surviving
+/// deltas has that shape). Glyph g gets the advance delta at +1:
+/// * `Short`: 100 + g in ordinary 16-bit words;
+/// * `LongSmall`: 100 + g in 32-bit LONG_WORDS;
+/// * `LongBig`: 40000 + g (even g) / 100 + g (odd g) in 32-bit LONG_WORDS (outside the i16 range).
+#[derive(Clone, Copy, PartialEq)]
+enum HvarVariant {
+    Short,
+    LongSmall,
+    LongBig,
+}
+fn with_long_hvar(bytes: &[u8], variant: HvarVariant) -> Option<Vec<u8>> {
     use write_fonts::tables::hvar::Hvar;
     use write_fonts::tables::variations::{ItemVariationData, ItemVariationStore, RegionAxisCoordinates, VariationRegion, VariationRegionList};
     let font = FontRef::new(bytes).ok()?;
@@ -2312,10 +2337,9 @@ fn with_long_hvar(bytes: &[u8]) -> Option<Vec<u8>> {
     let n = font.maxp().ok()?.num_glyphs();
     let region = VariationRegion::new(vec![RegionAxisCoordinates::new(F2Dot14::ZERO, F2Dot14::from_f32(1.0), F2Dot14::from_f32(1.0))]);
     let mut deltas = vec![];
-    // C17_LONG_HVAR=short: the same store with ordinary 16-bit words (control)
-    let short = std::env::var("C17_LONG_HVAR").map_or(false, |v| v == "short");
+    let short = variant == HvarVariant::Short;
     for g in 0..n as i32 {
-        let big = std::env::var("C17_LONG_HVAR").map_or(true, |v| v != "small" && v != "short");
+        let big = variant == HvarVariant::LongBig;
         let d: i32 = if g % 2 == 0 && big { 40000 + g } else { 100 + g };
         if short {
             deltas.extend_from_slice(&(d as i16).to_be_bytes());
@@ -2328,8 +2352,26 @@ fn with_long_hvar(bytes: &[u8]) -> Option<Vec<u8>> {
     let hvar = Hvar::new(store, None, None, None);
     let mut fb = write_fonts::FontBuilder::new();
     fb.add_table(&hvar).ok()?;
-    fb.copy_missing_tables(font);
-    Some(fb.build())
+    fb.copy_missing_tables(font.clone());
+    let out = fb.build();
+    // gate: the table reads back without an advance map, with the intended word format, and glyph 1's
+    // advance at +1 is its default advance + 101
+    {
+        let derived = FontRef::new(&out).ok()?;
+        let h = derived.hvar().ok()?;
+        if h.advance_width_mapping().is_some() {
+            return None;
+        }
+        let wdc = h.item_variation_store().ok()?.item_variation_data().get(0)?.ok()?.word_delta_count();
+        if (wdc & 0x8000 != 0) == short {
+            return None;
+        }
+        let at = |c: f32| derived.glyph_metrics(Size::unscaled(), LocationRef::new(&[F2Dot14::from_f32(c)])).advance_width(GlyphId::new(1));
+        if n < 2 || at(1.0)? != at(0.0)? + 101.0 {
+            return None;
+        }
+    }
+    Some(out)
 }
 
 /// Copy of a variable font whose HVAR gains a left-side-bearing DeltaSetIndexMap: the advance map's
@@ -2674,46 +2716,6 @@ fn body(run: &Run, replay: Option<&Value>) {
     run.count("alias_request_characters", fonts.iter().map(|f| f.aliases.len() as u64).sum());
     run.bound("cmap_probe_alphabet", json!(format!("per font (original and every subset): every code point named by any format 4/12 subtable; for mapped characters (all if ≤ {}, else the first and last {PROBE_EDGE}) and for requested characters: c±1, c + k·0x10000 (k = 1..=16) or c & 0xFFFF; 15 fixed boundary code points", 2 * PROBE_EDGE)));
     run.bound("alias_requests", json!("absent characters b + {1,2,16}·0x10000 for b in {first mapped BMP character, U+0041, last mapped BMP character} and s & 0xFFFF for the first mapped supplementary character s: alone, with the aliased character, with one glyph id, all together × {DEFAULT, RETAIN_GIDS, NO_HINTING|NOTDEF_OUTLINE}"));
-    // triage aid (never used by ./check): C17_LONG_HVAR=1 builds a copy of a one-axis corpus font whose HVAR
-    // store uses 32-bit ("long word") deltas above the 16-bit range and reports what subsetting it gives
-    if std::env::var("C17_LONG_HVAR").is_ok() {
-        for fi in fonts.iter().filter(|f| f.name.ends_with("/hvar_with_truncated_adv_index_map.ttf")) {
-            match with_long_hvar(&fi.bytes) {
-                None => println!("long-hvar: derived font could not be built"),
-                Some(b) => {
-                    let f = FontRef::new(&b).unwrap();
-                    let loc = vec![F2Dot14::from_f32(1.0); fi.axes];
-                    let gm = f.glyph_metrics(Size::unscaled(), LocationRef::new(&loc));
-                    println!("long-hvar: original advances at +1: {:?}", (0..4).map(|g| gm.advance_width(GlyphId::new(g))).collect::<Vec<_>>());
-                    if let Some(dfi) = load_font("derived:long-hvar".into(), b.clone(), 0, tier) {
-                        for (gids, flags) in [(vec![1u32, 2], 0u16), (vec![2], 0), ((0..fi.num_glyphs).collect(), F_RETAIN_GIDS)] {
-                            let req = Request { gids, unicodes: vec![] };
-                            if let Ok(Ok(o)) = run_subset(&dfi.font(), &req.gids, &[], flags) {
-                                let sf = FontRef::new(&o).unwrap();
-                                println!("long-hvar: subset tables: {}", sf.table_directory.table_records().iter().map(|r| format!("{}:{}", r.tag(), r.length())).collect::<Vec<_>>().join(" "));
-                                match verify(&dfi, &req, flags, &o) {
-                                    Ok(_) => println!("long-hvar: verify ok"),
-                                    Err(vs) => for v in vs.iter().take(4) { println!("long-hvar: VIOL {} :: {}", v.class, v.what) },
-                                }
-                            }
-                        }
-                    }
-                    for (gids, flags) in [(vec![1u32, 2], 0u16), (vec![2], 0), ((0..fi.num_glyphs).collect(), F_RETAIN_GIDS)] {
-                        match run_subset(&f, &gids, &[], flags) {
-                            Ok(Ok(o)) => {
-                                let sf = FontRef::new(&o).unwrap();
-                                let sm = sf.glyph_metrics(Size::unscaled(), LocationRef::new(&loc));
-                                println!("long-hvar: gids {:?} flags {flags}: Ok, subset advances at +1: {:?}", &gids[..gids.len().min(4)], (0..3).map(|g| sm.advance_width(GlyphId::new(g))).collect::<Vec<_>>());
-                            }
-                            Ok(Err(e)) => println!("long-hvar: gids {:?} flags {flags}: Err({e})", &gids[..gids.len().min(4)]),
-                            Err(p) => println!("long-hvar: gids {:?} flags {flags}: panic {} @{}", &gids[..gids.len().min(4)], p.message, p.site()),
-                        }
-                    }
-                }
-            }
-        }
-        std::process::exit(0);
-    }
     let flags = flag_sets();
     run.bound("flag_sets", json!(flags.iter().map(|f| flag_names(*f)).collect::<Vec<_>>()));
     run.bound("sizes", json!(["unscaled", 16]));
